@@ -1,8 +1,11 @@
 ------------------------------- MODULE OneCopy -------------------------------
 (* P-spec for C11: the two-phase-commit variable behaves as one copy and does not       *)
 (* livelock. State = what is observable at the public surface of the resource:           *)
-(*   inst      pairs <<version, value>> exposed by any replica (GetState / GetVersion) or *)
-(*             carried by a Commit request that crossed a ReplicaHandle                   *)
+(*   inst      pairs <<version, value>> exposed by any replica (GetState / GetVersion,   *)
+(*             or the ReadValue that opens a section) or carried by a Commit request      *)
+(*             that crossed a ReplicaHandle                                               *)
+(*   creq      pairs <<version, value>> carried by a Commit request: what a replica       *)
+(*             exposes as version v > 0 must be what some proposer committed as v         *)
 (*   win       pairs <<version, proposer>>: who sent a Commit for that version            *)
 (*   lastver   per replica, the last version it exposed                                   *)
 (*   rd        per writer, the value (and version, when known) its open section read      *)
@@ -16,15 +19,15 @@
 (* public ReplicaHandle interface (type, version, value, sender, sender time).            *)
 EXTENDS Integers, Sequences, FiniteSets, TLC
 
-VARIABLES nodes, inst, win, lastver, rd, cver, busy, hold, abt, cmt, open, solo, solotries, solocommits, soloK, bad
-pvars == <<nodes, inst, win, lastver, rd, cver, busy, hold, abt, cmt, open, solo, solotries, solocommits, soloK, bad>>
+VARIABLES nodes, inst, creq, win, lastver, rd, cver, busy, hold, abt, cmt, open, solo, solotries, solocommits, soloK, bad
+pvars == <<nodes, inst, creq, win, lastver, rd, cver, busy, hold, abt, cmt, open, solo, solotries, solocommits, soloK, bad>>
 
 InitialValue == 0
 Max(a, b) == IF a > b THEN a ELSE b
 
 PInitFor(n) ==
   /\ nodes = 1..n
-  /\ inst = {} /\ win = {}
+  /\ inst = {} /\ creq = {} /\ win = {}
   /\ lastver = [x \in 1..n |-> 0]
   /\ rd = [x \in 1..n |-> [val |-> InitialValue, ver |-> 0]]
   /\ cver = [x \in 1..n |-> 0]
@@ -38,7 +41,7 @@ PInitFor(n) ==
 
 PReset(n) ==
   /\ nodes' = 1..n
-  /\ inst' = {} /\ win' = {}
+  /\ inst' = {} /\ creq' = {} /\ win' = {}
   /\ lastver' = [x \in 1..n |-> 0]
   /\ rd' = [x \in 1..n |-> [val |-> InitialValue, ver |-> 0]]
   /\ cver' = [x \in 1..n |-> 0]
@@ -63,35 +66,42 @@ Justified(a, from, ver, id) ==
 \* ---------------------------------------------------------------- operations (observable events)
 Unch(vs) == UNCHANGED vs
 
+\* the ReadValue that opens a section (the replica is outside any section: what it returns is its committed value);
+\* ev.ver is the replica's version when GetVersion gave the same answer before and after the call, otherwise -1
+Exposes(ver, val) == IF ver > 0 THEN {<<ver, val>>} ELSE {}
+BadExposure(ver, val) == (ver = 0 /\ val # InitialValue) \/ (ver > 0 /\ <<ver, val>> \notin creq)
 ORead(ev) ==
   /\ rd' = [rd EXCEPT ![ev.p] = [val |-> ev.val, ver |-> ev.ver]]
-  /\ UNCHANGED <<nodes, inst, win, lastver, cver, busy, hold, abt, cmt, open, solo, solotries, solocommits, soloK, bad>>
+  /\ inst' = IF ev.ok THEN inst \cup Exposes(ev.ver, ev.val) ELSE inst
+  /\ bad' = bad \cup (IF ev.ok /\ BadExposure(ev.ver, ev.val) THEN {"SameValuePerVersion"} ELSE {})
+  /\ UNCHANGED <<nodes, creq, win, lastver, cver, busy, hold, abt, cmt, open, solo, solotries, solocommits, soloK>>
 
 OPCStart(ev) ==
   /\ busy' = [busy EXCEPT ![ev.p] = TRUE]
   /\ open' = {IF o.to = ev.p THEN [o EXCEPT !.j = TRUE] ELSE o : o \in open}
   /\ solotries' = IF solo = ev.p THEN solotries + 1 ELSE solotries
-  /\ UNCHANGED <<nodes, inst, win, lastver, rd, cver, hold, abt, cmt, solo, solocommits, soloK, bad>>
+  /\ UNCHANGED <<nodes, inst, creq, win, lastver, rd, cver, hold, abt, cmt, solo, solocommits, soloK, bad>>
 
 OPC(ev) ==
   /\ busy' = [busy EXCEPT ![ev.p] = IF ev.ok THEN busy[ev.p] ELSE FALSE]
-  /\ UNCHANGED <<nodes, inst, win, lastver, rd, cver, hold, abt, cmt, open, solo, solotries, solocommits, soloK, bad>>
+  /\ UNCHANGED <<nodes, inst, creq, win, lastver, rd, cver, hold, abt, cmt, open, solo, solotries, solocommits, soloK, bad>>
 
 OCommitDone(ev) ==
   /\ busy' = [busy EXCEPT ![ev.p] = FALSE]
   /\ lastver' = [lastver EXCEPT ![ev.p] = Max(lastver[ev.p], cver[ev.p])]
   /\ solocommits' = IF solo = ev.p THEN solocommits + 1 ELSE solocommits
-  /\ UNCHANGED <<nodes, inst, win, rd, cver, hold, abt, cmt, open, solo, solotries, soloK, bad>>
+  /\ UNCHANGED <<nodes, inst, creq, win, rd, cver, hold, abt, cmt, open, solo, solotries, soloK, bad>>
 
 OAbortDone(ev) ==
   /\ busy' = [busy EXCEPT ![ev.p] = FALSE]
-  /\ UNCHANGED <<nodes, inst, win, lastver, rd, cver, hold, abt, cmt, open, solo, solotries, solocommits, soloK, bad>>
+  /\ UNCHANGED <<nodes, inst, creq, win, lastver, rd, cver, hold, abt, cmt, open, solo, solotries, solocommits, soloK, bad>>
 
 \* a request leaves a proposer; the first Commit request of a proposer for a version names the version and
 \* value its open section installs (later ones are the same Commit sent again after a transport error)
 OReq(ev) ==
   /\ IF ev.t = "Commit"
        THEN /\ inst' = inst \cup {<<ev.ver, ev.val>>}
+            /\ creq' = creq \cup {<<ev.ver, ev.val>>}
             /\ win' = win \cup {<<ev.ver, ev.from>>}
             /\ IF <<ev.ver, ev.from>> \in win
                  THEN UNCHANGED <<cver, bad>>
@@ -100,14 +110,14 @@ OReq(ev) ==
                            (IF \/ (rd[ev.from].ver >= 0 /\ rd[ev.from].ver # ev.ver - 1)
                                \/ (ValuesOf(ev.ver - 1) # {} /\ rd[ev.from].val \notin ValuesOf(ev.ver - 1))
                              THEN {"StaleReadAborts"} ELSE {})
-       ELSE UNCHANGED <<inst, win, cver, bad>>
+       ELSE UNCHANGED <<inst, creq, win, cver, bad>>
   /\ UNCHANGED <<nodes, lastver, rd, busy, hold, abt, cmt, open, solo, solotries, solocommits, soloK>>
 
 \* the transport hands the request to the replica (the replica processes it between this event and ORsp)
 ODlv(ev) ==
   /\ open' = open \cup {[id |-> ev.id, to |-> ev.to, t |-> ev.t, kind |-> ev.kind,
                          j |-> Justified(ev.to, ev.from, ev.ver, ev.id)]}
-  /\ UNCHANGED <<nodes, inst, win, lastver, rd, cver, busy, hold, abt, cmt, solo, solotries, solocommits, soloK, bad>>
+  /\ UNCHANGED <<nodes, inst, creq, win, lastver, rd, cver, busy, hold, abt, cmt, solo, solotries, solocommits, soloK, bad>>
 
 ORsp(ev) ==
   LET mine == {o \in open : o.id = ev.id /\ o.kind = ev.kind}
@@ -121,33 +131,33 @@ ORsp(ev) ==
        (IF /\ ev.t = "PreCommit" /\ ~ev.err /\ ~ev.acc /\ ev.rver + 1 = ev.ver
            /\ ~jd /\ ~Justified(ev.to, ev.from, ev.ver, ev.id)
          THEN {"Released"} ELSE {})
-  /\ UNCHANGED <<nodes, inst, win, lastver, rd, cver, busy, solo, solotries, solocommits, soloK>>
+  /\ UNCHANGED <<nodes, inst, creq, win, lastver, rd, cver, busy, solo, solotries, solocommits, soloK>>
 
 \* a replica exposes (version, committed value)
 OObs(ev) ==
   /\ lastver' = [lastver EXCEPT ![ev.n] = Max(@, Max(ev.ver, ev.gv))]
   /\ inst' = IF ev.ver > 0 THEN inst \cup {<<ev.ver, ev.val>>} ELSE inst
   /\ bad' = bad \cup (IF ev.ver < lastver[ev.n] \/ ev.gv < ev.ver THEN {"VersionsMonotone"} ELSE {})
-                \cup (IF ev.ver = 0 /\ ev.val # InitialValue THEN {"SameValuePerVersion"} ELSE {})
-  /\ UNCHANGED <<nodes, win, rd, cver, busy, hold, abt, cmt, open, solo, solotries, solocommits, soloK>>
+                \cup (IF BadExposure(ev.ver, ev.val) THEN {"SameValuePerVersion"} ELSE {})
+  /\ UNCHANGED <<nodes, creq, win, rd, cver, busy, hold, abt, cmt, open, solo, solotries, solocommits, soloK>>
 
 OSolo(ev) ==
   /\ solo' = ev.p /\ solotries' = 0 /\ solocommits' = 0 /\ soloK' = ev.tries
-  /\ UNCHANGED <<nodes, inst, win, lastver, rd, cver, busy, hold, abt, cmt, open, bad>>
+  /\ UNCHANGED <<nodes, inst, creq, win, lastver, rd, cver, busy, hold, abt, cmt, open, bad>>
 
 \* end of a solo phase: the writer retried alone from a quiet state with every message delivered
 OSoloEnd(ev) ==
   /\ bad' = bad \cup (IF solo = ev.p /\ solocommits = 0 /\ solotries >= soloK THEN {"Progress"} ELSE {})
   /\ solo' = 0
-  /\ UNCHANGED <<nodes, inst, win, lastver, rd, cver, busy, hold, abt, cmt, open, solotries, solocommits, soloK>>
+  /\ UNCHANGED <<nodes, inst, creq, win, lastver, rd, cver, busy, hold, abt, cmt, open, solotries, solocommits, soloK>>
 
 OPanic(ev) ==
   /\ bad' = bad \cup {"NoPanic"}
-  /\ UNCHANGED <<nodes, inst, win, lastver, rd, cver, busy, hold, abt, cmt, open, solo, solotries, solocommits, soloK>>
+  /\ UNCHANGED <<nodes, inst, creq, win, lastver, rd, cver, busy, hold, abt, cmt, open, solo, solotries, solocommits, soloK>>
 
 \* ---------------------------------------------------------------- the property
 Functional(S) == \A x, y \in S : x[1] = y[1] => x[2] = y[2]
-\* every replica installs the same value for each version
+\* every replica installs the same value for each version: the one its winner committed
 SameValuePerVersion == Functional(inst) /\ "SameValuePerVersion" \notin bad
 \* at most one proposer wins each version
 OneWinnerPerVersion == Functional(win)
